@@ -42,7 +42,7 @@ HARD_FLOATS = [0.1, 1e-5, 0.005311234567890123, 123456.789, -2.5e-7, 1e22, 3.0, 
 def budget(tier):
     if tier == "quick":
         return {"examples": 1600, "shards": 16, "time_s": 60}
-    return {"examples": 32000, "shards": 16, "time_s": 900}
+    return {"examples": 192000, "shards": 16, "time_s": 1500}
 
 
 def _values(draw, kind, n):
@@ -433,7 +433,7 @@ def extra(tier, seed, shard, nshards, stats):
                                  "classes": ["writer-" + self.ops[0]["fmt"], "buffer-" + (self.ops[0]["buffer_kind"] if self.ex.buffered else "none")],
                                  "counters": {"rows_written": len(self.ex.model), "writer_histories": 1}})
 
-    n = (400 if tier == "quick" else 8000) // nshards
+    n = (400 if tier == "quick" else 48000) // nshards
     try:
         run_state_machine_as_test(
             hypothesis.seed(seed * 1000 + shard + 500)(WriterMachine),
